@@ -416,6 +416,12 @@ def run(rep, tier):
             got2 = lr.simplify(T.parse(['PML_CONST', b, u, 'PML_CONST']))
             ok2 = isinstance(got2, tuple) and got2[0] == 'bin' and got2[1] == b and isinstance(got2[3], tuple) and got2[3][0] == 'un'
             rep.check(ok2, 'R17.1', 'unary-rhs %s,%s' % (b, u), TAB, 'c %s %sc groups as %s' % (SPELL[b], '-' if u == 'PML_MINUS' else '!', show(got2)))
+    # a unary minus below another unary operator: the value-equivalence of -(a*b) and (-a)*b does not carry over, !(-(z*2)) is not (!(-z))*2
+    for b in [o for o in OPS if PREC[o] == 10]:
+        got3 = lr.simplify(T.parse(['PML_NEG', 'PML_MINUS', 'PML_CONST', b, 'PML_CONST']))
+        tight3 = isinstance(got3, tuple) and got3[0] == 'bin' and got3[1] == b
+        rep.check(tight3, 'R17.1', 'unary !-,%s' % b, TAB, '!-c %s c groups as %s%s' % (SPELL[b], show(got3), '' if tight3 else
+                  ': the unary minus has the precedence of the binary one (`PML_MINUS expr %prec PML_MINUS`), so the product ends up below the !; with z == 0, !-z*2 evaluates to 1, Promela / C give 2'))
     # parentheses override
     got = lr.simplify(T.parse(['PML_CONST', 'PML_TIMES', "'('", 'PML_CONST', 'PML_PLUS', 'PML_CONST', "')'"]))
     rep.check(got == ('bin', 'PML_TIMES', 'PML_CONST', ('paren', ('bin', 'PML_PLUS', 'PML_CONST', 'PML_CONST'))), 'R17.1', 'parentheses', TAB, 'c * (c + c) groups as %s' % show(got))
@@ -746,3 +752,30 @@ def run(rep, tier):
         aware = any(y['k'] == 'DeclRefExpr' and y.get('ref', {}).get('name') == 'PML_VAR_ARRAY' for l_ in loops for y in sub(l_))
         rep.check(aware or not loops, 'R17.10', q_.split('::')[-1] + '|compound path', locstr(cm['node']), 'the walk over the components of a compound name %s' % (
             'handles array components' if aware or not loops else 'uses node->value for every component: an array component has an empty value, so every s.arr[i] is the one hidden field "" (s.arr[1] = 5; s.arr[2] = 7 leaves s.arr[1] == 7 and s.arr unchanged)'))
+
+    # ---- R17.11 / R17.12 (second audit)
+    rep.rule('R17.11', 'every well-formed statement is evaluated: the entry <script> goes through (evalAsData) hands the AST to the evaluator for what the parser recognised - evaluateStmnt for statement sequences, ++ and --, evaluateDecl for declarations - not everything to evaluateExpr, which has no arm for them')
+    ead = fb.fn('uscxml::PromelaDataModel::evalAsData')
+    called11 = {x.get('callee', {}).get('q', '').split('::')[-1] for x in ead.walk() if x.get('callee')}
+    rep.check({'evaluateStmnt', 'evaluateDecl', 'evaluateExpr'} <= called11, 'R17.11', 'evalAsData|dispatch', ead.where(), 'evalAsData calls %s%s' % (
+        sorted(called11 & {'evaluateStmnt', 'evaluateDecl', 'evaluateExpr'}), '' if {'evaluateStmnt', 'evaluateDecl'} <= called11 else
+        ': `x = 2; y = 3`, `x++`, `a[1]--` and `int q = 4` in a <script> raise error.execution ("Support for STMNT expressions not implemented") and leave the store untouched'))
+    rep.rule('R17.12', 'a variable holds values of its declared type: every store of a value into a declared variable (initialiser, scalar and array-element assignment) passes through a reduction that reads the declared type (bit/bool, byte, short wrap like Promela / C); the model emitted by the transpiler declares the same widths')
+    stores = []
+    for q12 in ('uscxml::PromelaDataModel::setVariable', 'uscxml::PromelaDataModel::evaluateDecl'):
+        for f12 in [f_ for f_ in fb.funcs.values() if f_.q == q12]:
+            for n in f12.walk():
+                if n['k'] in ('CXXOperatorCallExpr', 'BinaryOperator') and n.get('op') == '=' and len(n.get('c', [])) >= 2:
+                    lhs, rhs = n['c'][-2], n['c'][-1]
+                    if not any(y['k'] == 'StringLiteral' and y.get('str') == 'value' for y in sub(lhs)) or not any(y.get('ref', {}).get('name') in ('_variables', 'variable') for y in sub(lhs)):
+                        continue
+                    # stores of a run-time value: the parameter `value` or an evaluated expression
+                    if not any((y['k'] == 'DeclRefExpr' and y.get('ref', {}).get('name') == 'value') or y.get('callee', {}).get('q', '').endswith('::evaluateExpr') for y in sub(rhs)):
+                        continue
+                    typed = any(y['k'] == 'StringLiteral' and y.get('str') == 'type' for y in sub(rhs)) or any(y['k'] == 'MemberExpr' and y.get('ref', {}).get('name') == 'value' and any(
+                        z.get('ref', {}).get('name') == 'type' for z in sub(y)) for y in sub(rhs))
+                    stores.append((f12, n, typed))
+    rep.minimum('R17.12', len(stores), 3, 'stores of run-time values into declared variables (setVariable, evaluateDecl)')
+    for f12, n, typed in stores:
+        rep.check(typed, 'R17.12', '%s|store#%d' % (f12.q.split('::')[-1], [x for x in stores if x[0] is f12].index((f12, n, typed))), locstr(n), 'the store `%s` %s' % (
+            ' '.join(fb.text(n).split())[:70], 'reduces the value to the declared type' if typed else 'keeps the int as it is: byte b = 255; b = b + 1 reads back 256 (spin: 0) while the emitted model declares `byte`'))
